@@ -116,6 +116,20 @@ fn dynamic_check(bc: &Bytecode, res: &bcv::ProgramResult, reg: &qrun::Registry, 
     }
 }
 
+/// Known finding (witness:short-circuit-skips-binding): the nil short-circuit of a sequence jumps
+/// over the bindings of its later steps straight to the point where the sequence's value is
+/// tested, so when the sequence is a branch condition the consequence's reads of those bindings
+/// are reachable, in the control-flow graph, from a path on which they were never stored. The path
+/// is infeasible at run time (the nil that skips the binding also fails the condition), which is
+/// exactly what `bcv::feasible_undefined_reads` decides; only issues it clears are attributed.
+fn drop_infeasible(issues: &mut Vec<bcv::Issue>, classes: &mut Vec<String>) {
+    let before = issues.len();
+    issues.retain(|i| i.kind != "undefined-local-on-infeasible-path");
+    if issues.len() != before && !classes.iter().any(|c| c == "excluded:short-circuit-skips-binding") {
+        classes.push("excluded:short-circuit-skips-binding".into());
+    }
+}
+
 pub fn check_case(case: &Case, reg: &qrun::Registry, dynamic: bool) -> CaseOutcome {
     let mut out = CaseOutcome { compiled: false, functions: 0, nontrivial_functions: 0, classes: vec![], violation: None, dyn_points: 0, harness_error: None, nontail: false };
     let modules = qrun::Modules::new();
@@ -130,6 +144,7 @@ pub fn check_case(case: &Case, reg: &qrun::Registry, dynamic: bool) -> CaseOutco
     out.compiled = true;
     let bc = c.program.to_bytecode(c.entry);
     let mut res = bcv::verify_bytecode(&bc);
+    drop_infeasible(&mut res.issues, &mut out.classes);
     if nontail {
         // Known finding (see known_findings.json, witness:nontail-tailcall): `^` written in a
         // non-tail position is accepted and compiled with operands beneath the argument. Only
@@ -190,6 +205,7 @@ pub fn check_case(case: &Case, reg: &qrun::Registry, dynamic: bool) -> CaseOutco
         match catch(|| c.program.to_bytecode_optimized(entry)) {
             Ok(shaken) => {
                 let mut r2 = bcv::verify_bytecode(&shaken);
+                drop_infeasible(&mut r2.issues, &mut out.classes);
                 if nontail {
                     r2.issues.retain(|i| i.kind != "tail-call-height");
                 }
@@ -237,6 +253,7 @@ pub fn check_case(case: &Case, reg: &qrun::Registry, dynamic: bool) -> CaseOutco
                     return out;
                 }
                 let mut r3 = bcv::verify_bytecode(&mbc);
+                drop_infeasible(&mut r3.issues, &mut out.classes);
                 if nontail || case.before_nontail(reg) {
                     r3.issues.retain(|i| i.kind != "tail-call-height");
                 }
@@ -370,6 +387,18 @@ pub fn run(ctx: &Ctx) -> i32 {
                     stats.known_hit(&e.signature);
                 } else {
                     println!("NOTE: known finding {} no longer reproduces", e.signature);
+                }
+            }
+            if e.signature == "witness:short-circuit-skips-binding" {
+                let src = "{ 0, 1 =x, x => x | 200 }";
+                let bad = match qrun::compile(src, &qrun::Modules::new(), &reg) {
+                    Ok(c) => bcv::verify_bytecode(&c.program.to_bytecode(c.entry)).issues.iter().any(|i| i.kind == "undefined-local-on-infeasible-path"),
+                    Err(_) => false,
+                };
+                if bad {
+                    stats.known_hit(&e.signature);
+                } else {
+                    println!("NOTE: known finding {} no longer reproduces (witness `{src}`)", e.signature);
                 }
             }
             if e.signature == "witness:nontail-tailcall" {
